@@ -376,12 +376,27 @@ func handlerVisits(a *An, df *DecodeFacts) (*Walker, []*Visit, *Ctx) {
 	return w, out, hctx
 }
 
-func isBitLit(l Lit, name string, a *An) bool {
-	if l.A.Kind != AkBit || l.Neg {
+func isBitLit(l Lit, name string, a *An) bool { return bitsWithin(l, a, name) }
+
+// bitsWithin: l is a positive test on a record mask stating that (one of / all of) some bits are set, all of which
+// belong to the named constants: bit(k), any(K) with K within the set, or all(K) with K meeting the set.
+func bitsWithin(l Lit, a *An, names ...string) bool {
+	if l.Neg || !strings.HasSuffix(l.A.Subj, ".Mask") && !strings.HasSuffix(l.A.Subj, "mask") {
 		return false
 	}
-	k, ok := unixConst(a, name)
-	return ok && l.A.Bits == k && strings.HasSuffix(l.A.Subj, ".Mask")
+	var allowed uint64
+	for _, n := range names {
+		if k, ok := unixConst(a, n); ok {
+			allowed |= k
+		}
+	}
+	switch l.A.Kind {
+	case AkBit, AkAny:
+		return l.A.Bits != 0 && l.A.Bits&^allowed == 0
+	case AkAll:
+		return l.A.Bits&allowed != 0
+	}
+	return false
 }
 
 // unixConst looks a constant up in golang.org/x/sys/unix as loaded for this configuration.
@@ -447,10 +462,8 @@ func c01Drops(a *An, df *DecodeFacts, rule string) {
 				switch {
 				case l.A.Kind == AkNil && !l.Neg && lookupInTable(l.A, tables):
 					reason = "unknown-wd"
-				case isBitLit(l, "IN_IGNORED", a):
-					reason = "IN_IGNORED"
-				case isBitLit(l, "IN_UNMOUNT", a):
-					reason = "IN_UNMOUNT"
+				case bitsWithin(l, a, "IN_IGNORED", "IN_UNMOUNT"):
+					reason = "IN_IGNORED|IN_UNMOUNT"
 				}
 			}
 			if reason == "" && c.has(func(l Lit) bool {
